@@ -11,7 +11,7 @@ LEVEL_TEXT = ('Bounded symbolic verification: per family (IPv6 unicast, IPv4/IPv
 LEVEL_NOTE = ('IPv6 address bits, MAC addresses, the 9-octet ESI type-0 value and flowspec operand values cross text<->hex idioms that '
               'the engine realises: they are concretised from boundary pools (outside the solver quantifier). SR-TE, IPv6 flowspec, '
               'tunnel encapsulation have no decoder (C08 only).')
-LEVEL_ADDED = 'Also: flowspec operands of every width followed by a further alternative and by a later component of the same rule. Operand values between the legal widths (65536 ...), flowspec rules of 240 octets and more, IPv6 next hops and EVPN addresses whose numeric value fits in 32 bits. A flowspec rule of 240+ octets followed by another rule.'
+LEVEL_ADDED = 'Also: flowspec operands of every width followed by a further alternative and by a later component of the same rule. Operand values between the legal widths (65536 ...), flowspec rules of 240 octets and more, IPv6 next hops and EVPN addresses whose numeric value fits in 32 bits. A flowspec rule of 240+ octets followed by another rule. Flowspec rules of exactly 239 / 240 / 242 octets; lists of alternatives that repeat a term.'
 TECHNIQUE = 'symbolic execution of MpReachNLRI/MpUnReachNLRI construct + Update.parse per family shape (CrossHair+z3), round-trip oracle, replayed counterexamples'
 EXPLANATION = 'C07: per-family MP_REACH/MP_UNREACH round trips.'
 BOUNDS = 'IPv4 prefix lengths 0..32, IPv6 0..128 (boundary set in quick); label stack depth 1..2; 1..2 routes; RD types 0/1/2; ESI types 0..5; flowspec components 1..11 x 5 operators x 1/2/4-byte operands'
